@@ -18,7 +18,7 @@ let ztab = Array.init 65536 z_of_int
 let zi n = if n >= 0 && n < 65536 then ztab.(n) else z_of_int n
 
 (* ---- parsing ---- *)
-let parse (s : Stdlib.String.t) : sx =
+let parse_sx (s : Stdlib.String.t) : sx =
   let n = Stdlib.String.length s in
   let pos = ref 0 in
   let rec skip () = while !pos < n && (s.[!pos] = ' ' || s.[!pos] = '\n' || s.[!pos] = '\r') do incr pos done in
@@ -131,6 +131,15 @@ let dispatch (cmd : Stdlib.String.t) (args : sx list) : unit =
   | "fsck", [slot; raw] -> plist pside (sides_of_raw (nat_of_int (int_of slot)) (zs_of raw))
   | "sd_padding_ok", [raw] -> pbool (List.for_all sd_slot_ok (List.concat (List.map (fun x -> x) [])) && true)
   | "doc_disk_kind", [n; e; eo] -> let ((ext, k), f) = doc_disk_kind (zs_of n) (zs_of e) (zs_of eo) in Buffer.add_char buf '('; pzs ext; sp (); pz k; sp (); pz f; Buffer.add_char buf ')'
+  | "cli", [tool; argv; fs] ->
+    let a = list_of zs_of argv and f = list_of (pair_of zs_of zs_of) fs in
+    let o = (match int_of tool with 0 -> tar_main a f | 1 -> disk_main false a f | _ -> disk_main true a f) in
+    Buffer.add_char buf '('; pz (cli_status o); sp ();
+    plist (function WriteFile (p, _) -> Buffer.add_string buf "(0 "; pzs p; Buffer.add_char buf ')' | MkDir p -> Buffer.add_string buf "(1 "; pzs p; Buffer.add_char buf ')') (cli_effects o);
+    Buffer.add_char buf ')'
+  | "cli_parse", [which; argv] ->
+    let spec = (match int_of which with 0 -> tar_cli | 1 -> disk_cli | 2 -> nl_cli | 3 -> prettier_cli | 4 -> lst2bas_cli | _ -> bas2lst_cli) in
+    pi (match parse spec (list_of zs_of argv) with PHelp -> 0 | PError -> 1 | PUnmodelled -> 2 | POk (_, _) -> 3)
   | _ -> failwith ("unknown command " ^ cmd)
 
 let () =
@@ -139,7 +148,7 @@ let () =
       let line = input_line stdin in
       Buffer.clear buf;
       (try
-         (match parse line with
+         (match parse_sx line with
           | L (S c :: args) -> dispatch c args
           | _ -> failwith "command shape");
          print_string "ok "; print_string (Buffer.contents buf)
